@@ -141,6 +141,9 @@ def check_dist(case, st):
         import warnings
         with warnings.catch_warnings():
             warnings.simplefilter("ignore")
+            # anneal_duration is documented as ignored when an explicit schedule is given: pass a shorter one in the in-order cases
+            if case["in_order"]:
+                return f(M, num_anneals=1, anneal_duration=1, initial_state=init, schedule=Ts, in_order=True, seed=0)
             return f(M, num_anneals=1, initial_state=init, schedule=Ts, in_order=case["in_order"], seed=0)
 
     def outcome(res):
@@ -425,7 +428,7 @@ def check_zero(case, st):
                     import warnings
                     with warnings.catch_warnings():
                         warnings.simplefilter("ignore")
-                        return f(M, num_anneals=3, initial_state=init, schedule=Ts, in_order=True, seed=0)
+                        return f(M, num_anneals=3, anneal_duration=1, initial_state=init, schedule=Ts, in_order=True, seed=0)
                 res, log = tp.run([], fn)
                 st.traces += 1
                 st.transitions += 1
